@@ -127,11 +127,11 @@ def gen_cases(rng, tier):
     # ---- layout on random records
     for u in _PROBE["usage"]:
         plat, meth, var = u["plat"], u["meth"], u["variant"]
+        if any(src[0] == "Unknown" for _n, src in u["fields"]):
+            continue        # opaque answers (strings, lists): only their error ladder is checked
         for _ in range(n_lay):
             cases.append({"kind": "layout", "cls": "layout-" + plat, "plat": plat, "meth": meth, "variant": var,
                           "records": _records(rng, plat)})
-        for fn, i in u["deps"] if var == "" else []:
-            pass
     # ---- dependency of status()/terminal() on their slot
     for plat in PLATS:
         if plat == "windows":
@@ -206,7 +206,7 @@ def coq_struct(case, raw):
     if k == "tables":
         return {"model": raw, "spec": None}
     if k == "names":
-        return {"model": [raw[0], raw[1]], "spec": None, "missing": [raw[2], raw[3]]} if isinstance(raw, list) else {"model": raw, "spec": None}
+        return {"model": [raw[0], raw[1], raw[2]], "spec": None, "missing": [raw[3], raw[4]]} if isinstance(raw, list) else {"model": raw, "spec": None}
     if k == "ladder":
         return {"model": raw[0], "spec": raw[1], "contract": raw[2]}
     if k in ("layout", "dep", "nic"):
@@ -231,19 +231,20 @@ _announced = set()
 
 
 def _local_known():
-    """Known-finding keys: the merged file plus this property's not-yet-merged notes/findings/C20.json."""
+    """Known-finding keys recorded in this property's notes/findings/C20.json but NOT yet merged into
+    known_findings.json (merged ones are handled by pv.core: witness replay, exemption, KNOWN-FINDING line)."""
     global _known_cache
     if _known_cache is None:
-        keys = {}
-        for p in (os.path.join(VERIF, "known_findings.json"), os.path.join(VERIF, "notes", "findings", "C20.json")):
+        def load(p):
             try:
                 d = json.load(open(p))
             except Exception:
-                continue
-            for f in (d.get("findings", []) if isinstance(d, dict) else d):
-                if f.get("property") == ID and f.get("status") == "known":
-                    keys[f["key"]] = f.get("what", "")
-        _known_cache = keys
+                return {}
+            return {f["key"]: f.get("what", "") for f in (d.get("findings", []) if isinstance(d, dict) else d)
+                    if f.get("property") == ID and f.get("status") == "known"}
+        merged = load(os.path.join(VERIF, "known_findings.json"))
+        local = load(os.path.join(VERIF, "notes", "findings", "C20.json"))
+        _known_cache = {k: v for k, v in local.items() if k not in merged}
     return _known_cache
 
 
@@ -267,6 +268,8 @@ def judge(case, coq, impl):
         return Verdict("ok")
     if k == "ladder" and isinstance(impl, dict) and impl.get("t") == "NotFired":
         return Verdict("corr", "native call %s not reached by %s.%s(pid=%d)" % (case["site"], case["plat"], case["meth"], case["pid"]))
+    if k == "layout" and isinstance(coq["model"], list) and coq["model"][2] == T("OutOfModel"):
+        return Verdict("skip", "answer not decodable into native slots")
     if k == "nic":
         spec, model = coq["spec"], coq["model"]
         spec_fail = impl[0] != spec[0] or (spec[1] != T("Any") and impl[1] != spec[1])
@@ -328,7 +331,8 @@ def impl_run(case, coq, env):
         except Exception as e:  # the front end does not import for that platform
             return Exc(type(e).__name__)
         return [[B(n) for n in sorted(n for n in dir(pkg) if not n.startswith("_") or n in pkg.__all__)],
-                [B(n) for n in sorted(n for n in dir(pkg.Process) if not n.startswith("_"))]]
+                [B(n) for n in sorted(n for n in dir(pkg.Process) if not n.startswith("_"))],
+                [B(n) for n in sorted(set(pkg.__all__))]]
     if k == "ladder":
         L = _layer(case["plat"], env)
         if case["meth"] not in P.methods_of(L):
